@@ -20,24 +20,27 @@ Definition img_close30 := list_all2 (list_all2 qclose30).
 Record rcase := {
   rc_order : nat; rc_odd : bool; rc_window : nat;
   rc_pi : Q;                         (* numpy.pi as a rational *)
+  rc_unit : Q;                       (* overall scale of the coefficient array (a power of two,
+                                        either sign); quantities proportional to the coefficients
+                                        are compared after division by it, the ratios beta as they are *)
   rc_r : list Q;                     (* Results.r *)
   rc_cn : list (list Q);             (* Results.cn *)
   rc_orders : list nat; rc_sinpowers : list nat;
   rc_cossin : list (list Q); rc_harm : list (list Q); rc_Ibeta : list (list Q) }.
 
-Definition rcheck (c : rcase) : bool :=
-  list_all2 Nat.eqb (orders (rc_order c) (rc_odd c)) (rc_orders c)
-  && list_all2 Nat.eqb (sinpowers (rc_order c) (rc_odd c)) (rc_sinpowers c)
-  && img_close (cossin QopsX inject_Z (rc_order c) (rc_odd c) (rc_cn c)) (rc_cossin c)
-  && img_close30 (harmonics QopsX inject_Z (rc_order c) (rc_odd c) (rc_cn c)) (rc_harm c)
-  && img_close30 (Ibeta QopsX (rc_pi c) inject_Z (rc_order c) (rc_odd c) (rc_window c) (rc_r c) (rc_cn c))
-               (rc_Ibeta c).
+Definition unscale (s : Q) (M : list (list Q)) : list (list Q) := map (map (fun v => Qred (v / s))) M.
+Definition unscale_I (s : Q) (M : list (list Q)) : list (list Q) :=
+  match M with [] => [] | row0 :: beta => map (fun v => Qred (v / s)) row0 :: beta end.
 
 (* which component disagrees (for the report) *)
 Definition rcheck_parts (c : rcase) : list bool :=
+  let s := rc_unit c in
   [list_all2 Nat.eqb (orders (rc_order c) (rc_odd c)) (rc_orders c);
    list_all2 Nat.eqb (sinpowers (rc_order c) (rc_odd c)) (rc_sinpowers c);
-   img_close (cossin QopsX inject_Z (rc_order c) (rc_odd c) (rc_cn c)) (rc_cossin c);
-   img_close30 (harmonics QopsX inject_Z (rc_order c) (rc_odd c) (rc_cn c)) (rc_harm c);
-   img_close30 (Ibeta QopsX (rc_pi c) inject_Z (rc_order c) (rc_odd c) (rc_window c) (rc_r c) (rc_cn c))
-               (rc_Ibeta c)].
+   negb (Qeq_bool s 0);
+   img_close (unscale s (cossin QopsX inject_Z (rc_order c) (rc_odd c) (rc_cn c))) (unscale s (rc_cossin c));
+   img_close30 (unscale s (harmonics QopsX inject_Z (rc_order c) (rc_odd c) (rc_cn c))) (unscale s (rc_harm c));
+   img_close30 (unscale_I s (Ibeta QopsX (rc_pi c) inject_Z (rc_order c) (rc_odd c) (rc_window c) (rc_r c) (rc_cn c)))
+               (unscale_I s (rc_Ibeta c))].
+
+Definition rcheck (c : rcase) : bool := forallb (fun b => b) (rcheck_parts c).
